@@ -41,7 +41,7 @@ func (o *Operations) archive(
 	compressionLevel string,
 	overwrite bool,
 	initializing bool,
-) ([]*tar.Header, error) {
+) (archived []*tar.Header, archiveErr error) {
 
 	writer, err := o.backend.GetWriter()
 	if err != nil {
@@ -62,8 +62,32 @@ func (o *Operations) archive(
 		return []*tar.Header{}, err
 	}
 
+	hdrs := []*tar.Header{}
 	lastIndexedRecord := int64(0)
 	lastIndexedBlock := int64(0)
+
+	// If a later file of the batch can't be archived (i.e. because it can't be opened), the files before it are completely on the tape: finish the archive and index them before reporting the error, or the tape ends in the middle of a block and holds records which the index doesn't know about
+	complete := 0     // Number of headers in `hdrs` whose record is completely on the tape
+	inFlight := false // Whether a record is partly on the tape
+	defer func() {
+		if archiveErr == nil || writerClosed || !dirty || inFlight || complete <= 0 {
+			return
+		}
+
+		hdrs = hdrs[:complete]
+
+		if err := cleanup(&dirty); err != nil {
+			return
+		}
+
+		writerClosed = true
+		if err := o.backend.CloseWriter(); err != nil {
+			return
+		}
+
+		_ = o.indexArchived(hdrs, lastIndexedRecord, lastIndexedBlock, overwrite, initializing)
+	}()
+
 	if !overwrite {
 		lastIndexedRecord, lastIndexedBlock, err = o.metadata.Metadata.GetLastIndexedRecordAndBlock(context.Background(), o.pipes.RecordSize)
 		if err != nil {
@@ -71,7 +95,6 @@ func (o *Operations) archive(
 		}
 	}
 
-	hdrs := []*tar.Header{}
 	for {
 		file, err := getSrc()
 		if err == io.EOF {
@@ -198,6 +221,7 @@ func (o *Operations) archive(
 			return []*tar.Header{}, err
 		}
 
+		inFlight = true
 		if err := tw.WriteHeader(hdr); err != nil {
 			return []*tar.Header{}, err
 		}
@@ -205,6 +229,9 @@ func (o *Operations) archive(
 		dirty = true
 
 		if !file.Info.Mode().IsRegular() || file.Info.Size() <= 0 {
+			inFlight = false
+			complete = len(hdrs)
+
 			if f != nil {
 				if err := f.Close(); err != nil {
 					return []*tar.Header{}, err
@@ -258,6 +285,9 @@ func (o *Operations) archive(
 			return []*tar.Header{}, err
 		}
 
+		inFlight = false
+		complete = len(hdrs)
+
 		if err := f.Close(); err != nil {
 			return []*tar.Header{}, err
 		}
@@ -267,23 +297,33 @@ func (o *Operations) archive(
 		return []*tar.Header{}, err
 	}
 
-	index := 1 // Ignore the first header, which is the last header which we already indexed
-	if overwrite {
-		index = 0 // If we are starting fresh, index from start
-	}
-
 	writerClosed = true
 	if err := o.backend.CloseWriter(); err != nil {
 		return []*tar.Header{}, err
 	}
 
+	return hdrs, o.indexArchived(hdrs, lastIndexedRecord, lastIndexedBlock, overwrite, initializing)
+}
+
+func (o *Operations) indexArchived(
+	hdrs []*tar.Header,
+	lastIndexedRecord int64,
+	lastIndexedBlock int64,
+	overwrite bool,
+	initializing bool,
+) error {
+	index := 1 // Ignore the first header, which is the last header which we already indexed
+	if overwrite {
+		index = 0 // If we are starting fresh, index from start
+	}
+
 	reader, err := o.backend.GetReader()
 	if err != nil {
-		return []*tar.Header{}, err
+		return err
 	}
 	defer o.backend.CloseReader()
 
-	return hdrs, recovery.Index(
+	return recovery.Index(
 		reader,
 		o.backend.MagneticTapeIO,
 		o.metadata,
